@@ -28,7 +28,7 @@ def _load_table(name):
     return {}
 
 
-KERNELS = ('ansi::',)     # the escape-sequence kernel: its arithmetic is index bookkeeping over Element ranges (value-level, not decided)
+KERNELS = ('ansi::', 'edits::', 'align::')     # the escape-sequence kernel and the alignment / annotation kernels: offset bookkeeping over their own token and Element ranges (value-level, not decided; P6 excludes the same kernels)
 
 
 def p3_sites(F, render):
@@ -197,7 +197,7 @@ def _sigF(F, p, o):
 
 def run(F, tier, res):
     res.assumptions += ['Rust `regex` and Python `re` agree on group structure', 'std / dependency functions do not panic on the values they are given (not analysed)']
-    res.not_decided += ['hangs / termination, allocation size, str char-boundary slicing in general, indexing inside the alignment kernels (align.rs, edits.rs: DP table indices), subtraction / slicing inside the escape-sequence kernel (ansi/mod.rs: offsets within Element ranges produced by its own iterator), arithmetic other than subtraction',
+    res.not_decided += ['hangs / termination, allocation size, str char-boundary slicing in general, indexing inside the alignment kernels (align.rs, edits.rs: DP table indices), subtraction / slicing inside the escape-sequence kernel (ansi/mod.rs: offsets within Element ranges produced by its own iterator) and inside the alignment / annotation kernels (align.rs, edits.rs: offsets over their own token lists), arithmetic other than subtraction',
                         'the CSI-sequence + non-ASCII text panic and the multi-byte combined-diff prefix panic named in the property text (char-boundary slicing: runtime values)']
     delta = [p for p in F.fn_bodies if p == 'delta::delta']
     if not delta:
@@ -269,7 +269,7 @@ def run(F, tier, res):
         else:
             res.violate('P3', key, 'an unsigned subtraction on the input path is not guarded by a comparison of its operands (overflow checks are on in debug builds; '
                         'in release it wraps to a huge value that is then used as a width / index)', where=s['where'])
-    res.rule('C03.P3', n3, 12, 'unsigned subtractions on the input path: discharged by pattern, hand-proved table, or reported', discharged=ok3, samples=samples[:12])
+    res.rule('C03.P3', n3, 8, 'unsigned subtractions on the input path: discharged by pattern, hand-proved table, or reported', discharged=ok3, samples=samples[:12])
     # ---------- P5: str slicing with a computed bound
     POS = ('::find', '::rfind', '::start', '::end', '::len', '::min', '::floor_char_boundary', '::ceil_char_boundary', '::char_indices', '::match_indices',
            '::position', '::saturating_sub', '::next', '::width', '::unwrap_or', '::checked_sub', '::range', '::ansi_preserving_index', '::offset')
@@ -409,7 +409,7 @@ def run(F, tier, res):
             else:
                 res.violate('P5', key, 'a string is sliced at a computed position that is neither a search/match position nor compared with the string\'s length: '
                             'an out-of-range (or non-boundary) index panics', where=F.span_of_call(c))
-    res.rule('C03.P5', n5, 30, 'str/String slicing sites with range bounds on the input path: discharged by pattern, hand-proved table, or reported', discharged=ok5, samples=samples5[:8])
+    res.rule('C03.P5', n5, 12, 'str/String slicing sites with range bounds on the input path: discharged by pattern, hand-proved table, or reported', discharged=ok5, samples=samples5[:8])
     # ---------- P6: Vec / slice indexing on the input path (outside the alignment kernels)
     table6 = _load_table('c03_p6_handproved.json')
     n6 = ok6 = 0
